@@ -61,34 +61,39 @@ def rangeIncl (a b : Int) : List Int :=
   if b < a then [] else (List.range (b - a + 1).toNat).map fun (k : Nat) => a + (k : Int)
 
 /-- one token of `get_numbers` (nom `alt` of: `a..b`, `a..`, `a`; a syntactic match whose `parse::<i32>`
-fails makes `alt` fall through to the next alternative).  `none` = parse error (E3). -/
-def parseNumTok (boundary : Nat) (w : String) : Option (List Int) :=
+fails makes `alt` fall through to the next alternative): the inclusive range the token stands for.
+`none` = parse error (E3). -/
+def parseNumTok (boundary : Nat) (w : String) : Option (Int × Int) :=
   match takeSigned w.toList with
   | none => none
   | some (a, rest) =>
-      let limited : Option (List Int) :=
+      let limited : Option (Int × Int) :=
         match rest with
         | '.' :: '.' :: rest' =>
             match takeSigned rest' with
-            | some (b, _) => if inI32 a && inI32 b then some (rangeIncl a b) else none
+            | some (b, _) => if inI32 a && inI32 b then some (a, b) else none
             | none => none
         | _ => none
       match limited with
       | some r => some r
       | none =>
-          let unlimited : Option (List Int) :=
+          let unlimited : Option (Int × Int) :=
             match rest with
-            | '.' :: '.' :: _ => if inI32 a then some (rangeIncl a (boundary : Int)) else none
+            | '.' :: '.' :: _ => if inI32 a then some (a, (boundary : Int)) else none
             | _ => none
           match unlimited with
           | some r => some r
-          | none => if inI32 a then some [a] else none
+          | none => if inI32 a then some (a, a) else none
 
 inductive NumRes where
   | ok (numbers : List Int) (consumed : Nat)
   | fail (r : Reply)
 
-/-- `get_numbers(params, boundary)` -/
+def boundaryErr (boundary : Nat) : Reply :=
+  E 3 s!"E3 error: not all parameters are within the boundary of {-(boundary : Int)} to {boundary}"
+
+/-- `get_numbers(params, boundary)`.  A non-empty range with an endpoint outside the boundary is
+rejected before it is expanded (repaired code). -/
 def getNumbers (boundary : Nat) (params : List String) : NumRes :=
   let rec go : List String → List Int → Nat → NumRes
     | [], nums, k => finish nums k
@@ -96,12 +101,13 @@ def getNumbers (boundary : Nat) (params : List String) : NumRes :=
         if hasAlpha w then boundaryCheck nums k    -- early return (even with no numbers), boundary still checked
         else match parseNumTok boundary w with
           | none => .fail (.err 3 none)
-          | some xs => go rest (nums ++ xs.filter (· != 0)) (k + 1)
+          | some (a, b) =>
+              if a ≤ b && (a.natAbs > boundary || b.natAbs > boundary) then .fail (boundaryErr boundary)
+              else go rest (nums ++ (rangeIncl a b).filter (· != 0)) (k + 1)
   go params [] 0
 where
   boundaryCheck (nums : List Int) (k : Nat) : NumRes :=
-    if nums.any (fun v => v.natAbs > boundary) then
-      .fail (E 3 s!"E3 error: not all parameters are within the boundary of {-(boundary : Int)} to {boundary}")
+    if nums.any (fun v => v.natAbs > boundary) then .fail (boundaryErr boundary)
     else .ok nums k
   finish (nums : List Int) (k : Nat) : NumRes :=
     if nums.isEmpty then .fail (E 4 "E4 error: option used but there was no value supplied")
@@ -246,8 +252,12 @@ def opWithVars (op : List Int → Bool → Option String) (params values : List 
   | some v => v
   | none => joinSemi (values.filterMap fun v => op (params ++ [v]) true)
 
+/-- `msg.split_whitespace()` -/
+def tokens (msg : String) : List String :=
+  (msg.split Char.isWhitespace).toList.map (·.toString) |>.filter (· ≠ "")
+
 def handle (nodes : List NType) (n : Nat) (cur : Cursor) (msg : String) : Cursor × Reply :=
-  let args := (msg.split Char.isWhitespace).toList.map (·.toString) |>.filter (· ≠ "")
+  let args := tokens msg
   match args with
   | [] => (cur, E 4 "E4 error: got an empty msg")
   | cmd :: tail =>
@@ -261,8 +271,11 @@ def handle (nodes : List NType) (n : Nat) (cur : Cursor) (msg : String) : Cursor
           if cmd != "clause-update" then
             (cur, E 4 s!"E4 error: {dbg w} can only be used in combination with \"clause-update\"")
           else
-            match getNumbers 2147483647 (args.drop (idx + 1)) with
-            | .ok [x] 1 =>
+            -- exactly one value token may follow, and it must be a plain number
+            let vals := (args.drop (idx + 1)).takeWhile (fun w => !hasAlpha w)
+            let single := vals.length == 1 && (vals.headD "").splitOn ".." == [vals.headD ""]
+            match (if single then getNumbers 2147483647 vals else .fail (.err 4 none)) with
+            | .ok [x] _ =>
                 if x > 0 then (cur, E 5 "E5 error: clauses corresponding to the d-DNNF aren't available; the input file must be a CNF")
                 else (cur, E 4 s!"E4 error: {dbg w} must be set to a single positive number")
             | _ => (cur, E 4 s!"E4 error: {dbg w} must be set to a single positive number")
@@ -294,7 +307,11 @@ def handle (nodes : List NType) (n : Nat) (cur : Cursor) (msg : String) : Cursor
             if p.values.any (· < 0) then (cur, E 5 "E5 error: candidates must be positive")
             else
               let cands := if p.values.isEmpty then (List.range n).map (· + 1) else p.values.map Int.toNat
-              (cur, .ok (some (joinSemi ((atomicSets nodes n cands p.params (cmd == "atomic-cross") []).map fmtIntsS))))
+              -- unsatisfiable assumptions: `get_signed_excludes` gets no samples and uses all-zero sign
+              -- vectors, i.e. one sample in which no feature is selected; otherwise the (admissible)
+              -- samples do not change the report (C08 `report_independent_of_samples`)
+              let samples : List Config := if execQuery nodes n p.params == 0 then [[]] else []
+              (cur, .ok (some (joinSemi ((atomicSets nodes n cands p.params (cmd == "atomic-cross") samples).map fmtIntsS))))
           else if cmd == "t-wise" then
             if p.fitness == 0 || p.fitness == n then (cur, .ok none)
             else (cur, E 5 s!"E5 error: Only {p.fitness} fitness values were provided but d-DNNF contains {n} variables.")
